@@ -52,6 +52,8 @@ class Recorder(dict):
         if name in self.fakes:
             return self.fakes[name]
         if not name.startswith('v'):
+            if dict.__contains__(self, name):
+                return dict.__getitem__(self, name)       # a function of the program, looked up from inside a function
             raise KeyError(name)
         line = sys._getframe(1).f_lineno
         if dict.__contains__(self, name):
